@@ -14,14 +14,15 @@ import (
 
 // assign item: which addresses of which heap component may be written
 type assignItem struct {
-	comp string
-	pred func(a string) string // condition "address a is covered by this item"
-	all  bool                  // whole component
+	comp   string                // component; "*" = every memory partition
+	pred   func(a string) string // condition "address a is covered by this item"
+	all    bool                  // whole component
+	region string                // for "*" items: the pointer whose object is covered
 }
 
-func (tr *Translator) leafItems(addr string, t types.Type) []assignItem {
+func (tr *Translator) leafItems(addr string, t types.Type, tag string) []assignItem {
 	var out []assignItem
-	for _, l := range tr.u.leaves(t) {
+	for _, l := range tr.u.leavesTag(t, tag) {
 		la := tr.u.leafAddr(addr, t, l.path)
 		out = append(out, assignItem{comp: l.comp, pred: func(a string) string { return eq(a, la) }})
 	}
@@ -47,7 +48,7 @@ func (tr *Translator) assignItems(env *Env, c *FuncContract) (items []assignItem
 					evalFail("elems() of non-slice")
 				}
 				arr, off, ln := slPart(s, 0), slPart(s, 1), slPart(s, 2)
-				for _, l := range u.leaves(st.Elem()) {
+				for _, l := range u.leavesTag(st.Elem(), "elem") {
 					l := l
 					items = append(items, assignItem{comp: l.comp, pred: func(a string) string {
 						b := a
@@ -67,7 +68,7 @@ func (tr *Translator) assignItems(env *Env, c *FuncContract) (items []assignItem
 					evalFail("spare() of non-slice")
 				}
 				arr, off, ln := slPart(s, 0), slPart(s, 1), slPart(s, 2)
-				for _, l := range u.leaves(st.Elem()) {
+				for _, l := range u.leavesTag(st.Elem(), "elem") {
 					l := l
 					items = append(items, assignItem{comp: l.comp, pred: func(a string) string {
 						b := a
@@ -109,10 +110,9 @@ func (tr *Translator) assignItems(env *Env, c *FuncContract) (items []assignItem
 				}
 				continue
 			case "region":
+				// region(p): every cell of the allocated object that contains p, in every partition ("*")
 				p := env.eval(call.Args[0])
-				for _, cn := range []string{"MBool", "MInt", "MReal", "MStr", "MPtr", "MSlice", "MIface"} {
-					items = append(items, assignItem{comp: cn, pred: func(a string) string { return eq("(obase "+a+")", "(obase "+p.E()+")") }})
-				}
+				items = append(items, assignItem{comp: "*", region: p.E(), pred: func(a string) string { return eq("(obase "+a+")", "(obase "+p.E()+")") }})
 				continue
 			case "modelmaps":
 				// every map of the document model (all maps whose values are not bool): their contents may change
@@ -127,8 +127,8 @@ func (tr *Translator) assignItems(env *Env, c *FuncContract) (items []assignItem
 				return nil, true
 			}
 		}
-		addr, t := env.addrOf(it)
-		items = append(items, tr.leafItems(addr, t)...)
+		addr, t, tag := env.addrOf(it)
+		items = append(items, tr.leafItems(addr, t, tag)...)
 	}
 	return items, false
 }
@@ -174,6 +174,14 @@ func (tr *Translator) contractMods(c *FuncContract, callee *ssa.Function) ([]str
 	}
 	set := map[string]bool{"ALLOC": true}
 	for _, it := range items {
+		if it.comp == "*" {
+			for _, cn := range tr.u.comps {
+				if strings.Contains(cn, "$") {
+					set[cn] = true
+				}
+			}
+			continue
+		}
 		set[it.comp] = true
 	}
 	var out []string
@@ -288,11 +296,38 @@ func (fc *fctx) callWith(c *FuncContract, key string, vars map[string]*Val, sig 
 	} else if !c.Pure || len(items) > 0 {
 		byComp := map[string][]assignItem{}
 		var order []string
+		var stars []assignItem
 		for _, it := range items {
+			if it.comp == "*" {
+				stars = append(stars, it)
+				continue
+			}
 			if _, ok := byComp[it.comp]; !ok {
 				order = append(order, it.comp)
 			}
 			byComp[it.comp] = append(byComp[it.comp], it)
+		}
+		if len(stars) > 0 {
+			// every partition touched so far may change inside the designated objects; partitions first used
+			// later are related to their old value through the epoch relation
+			for _, cn := range tr.cur.keys() {
+				if strings.Contains(cn, "$") {
+					if _, ok := byComp[cn]; !ok {
+						order = append(order, cn)
+						byComp[cn] = nil
+					}
+				}
+			}
+			for cn := range byComp {
+				if strings.Contains(cn, "$") {
+					byComp[cn] = append(byComp[cn], stars...)
+				}
+			}
+			var regs []string
+			for _, st := range stars {
+				regs = append(regs, st.region)
+			}
+			tr.bumpEpochRegion(regs)
 		}
 		allocPre := tr.cur.get(u, "ALLOC")
 		if !c.Pure {
@@ -314,7 +349,7 @@ func (fc *fctx) callWith(c *FuncContract, key string, vars map[string]*Val, sig 
 			if whole {
 				continue
 			}
-			tr.fact(fmt.Sprintf("(forall ((a Int)) (! (=> (and (< (obase a) %s) %s) (= (select %s a) (select %s a))) :pattern ((select %s a))))", allocPre, not(or(preds...)), n, old, n))
+			tr.factFor(n, fmt.Sprintf("(forall ((a Int)) (! (=> (and (< (obase a) %s) %s) (= (select %s a) (select %s a))) :pattern ((select %s a))))", allocPre, not(or(preds...)), n, old, n))
 		}
 	}
 	res := fc.freshResults(sig.Results(), "c_"+sanitize(key))
@@ -375,6 +410,9 @@ func verifyFunc(prog *ssa.Program, spkg *ssa.Package, contracts *Contracts, fn *
 	if c != nil {
 		tr.topProps = c.Props
 		tr.appendView = c.AppendView
+		for _, k := range c.Inline {
+			tr.inlineAnyway[k] = true
+		}
 		tr.uninterpStrings = c.Strings == "uninterpreted"
 	}
 	if len(opts.props) > 0 && len(tr.topProps) == 0 {
@@ -431,8 +469,6 @@ func verifyFunc(prog *ssa.Program, spkg *ssa.Package, contracts *Contracts, fn *
 		tr.assumeWellFormed(v, fv.Type(), 0)
 	}
 	// heap well-formedness: cells of allocated objects point to allocated objects
-	tr.fact("(forall ((a Int)) (! (=> (< (obase a) ALLOC_0) (and (>= (select MPtr_0 a) 0) (< (obase (select MPtr_0 a)) ALLOC_0))) :pattern ((select MPtr_0 a))))")
-	tr.fact("(forall ((a Int)) (! (=> (< (obase a) ALLOC_0) (let ((s (select MSlice_0 a))) (and (>= (sl_arr s) 0) (< (obase (sl_arr s)) ALLOC_0) (>= (sl_off s) 0) (>= (sl_len s) 0) (>= (sl_cap s) (sl_len s)) (=> (= (sl_arr s) 0) (= (sl_cap s) 0))))) :pattern ((select MSlice_0 a))))")
 	fc.entrySt = tr.cur.clone()
 	if c != nil {
 		env := fc.envAt(tr.cur)
@@ -495,7 +531,11 @@ func verifyFunc(prog *ssa.Program, spkg *ssa.Package, contracts *Contracts, fn *
 				whole := false
 				var preds []string
 				sk := u.fresh("sk_a")
-				for _, it := range byComp[cn] {
+				its := byComp[cn]
+				if strings.Contains(cn, "$") {
+					its = append(append([]assignItem{}, its...), byComp["*"]...)
+				}
+				for _, it := range its {
 					if it.all {
 						whole = true
 					} else {
